@@ -105,6 +105,30 @@ func guard(entry string, cs any, f func()) bool {
 	return !p
 }
 
+// perConst reports a violation keyed by the constant it concerns. A systematic
+// fault (say Error() printing a truncated code) would otherwise produce one key
+// per table row: after the first perConstKeys constants of one (entry, class) the
+// rest are folded into "<entry>:<class>:and-more". Constants are visited in
+// ascending value order, so the key set is the same on every run.
+const perConstKeys = 8
+
+var perConstSeen = map[string]map[string]bool{}
+
+func perConst(entry, class, ident, what string, cs any) {
+	k := entry + ":" + class
+	m := perConstSeen[k]
+	if m == nil {
+		m = map[string]bool{}
+		perConstSeen[k] = m
+	}
+	if !m[ident] && len(m) >= perConstKeys {
+		r.Violation(k+":and-more", "further constants with the same failure — "+what, cs)
+		return
+	}
+	m[ident] = true
+	r.Violation(k+":"+ident, what, cs)
+}
+
 // ---------------------------------------------------------------------------
 // source enumeration and claiming
 
@@ -224,19 +248,19 @@ func checkEnumFamily(src *source, f enumFamily) {
 				r.Nontrivial(fmt.Sprintf("const|%s|%d", lk.Entry, v))
 			}
 			if name != again {
-				r.Violation(lk.Entry+":nondeterministic:"+id0, fmt.Sprintf("%s for %s (0x%X) gave %q then %q", lk.Entry, id0, v, name, again), cse)
+				perConst(lk.Entry, "nondeterministic", id0, fmt.Sprintf("%s for %s (0x%X) gave %q then %q", lk.Entry, id0, v, name, again), cse)
 			}
 			names := lk.Mode != opaque && faithfulAny(lk.Mode, name, ids, cp)
 			if name == "" {
-				r.Violation(lk.Entry+":placeholder:"+id0, fmt.Sprintf("declared constant %s (0x%X) maps to the empty string", id0, v), cse)
+				perConst(lk.Entry, "placeholder", id0, fmt.Sprintf("declared constant %s (0x%X) maps to the empty string", id0, v), cse)
 			} else if u, isPh := ph[skeleton(name)]; isPh && !names {
-				r.Violation(lk.Entry+":placeholder:"+id0, fmt.Sprintf("declared constant %s (0x%X) maps to %q, which is what the undeclared value 0x%X maps to", id0, v, name, u), cse)
+				perConst(lk.Entry, "placeholder", id0, fmt.Sprintf("declared constant %s (0x%X) maps to %q, which is what the undeclared value 0x%X maps to", id0, v, name, u), cse)
 			} else if lk.Mode != opaque && !names {
-				r.Violation(lk.Entry+":wrong-name:"+id0, fmt.Sprintf("declared constant %s (0x%X) maps to %q, which is not the name of any constant with that value (%v, family prefix %q)", id0, v, name, ids, cp), cse)
+				perConst(lk.Entry, "wrong-name", id0, fmt.Sprintf("declared constant %s (0x%X) maps to %q, which is not the name of any constant with that value (%v, family prefix %q)", id0, v, name, ids, cp), cse)
 			}
 			if name != "" {
 				if w, dup := seen[name]; dup {
-					r.Violation(lk.Entry+":duplicate-name:"+id0, fmt.Sprintf("distinct values 0x%X (%s) and 0x%X (%s) both map to %q", w, byVal[w][0], v, id0, name), cse)
+					perConst(lk.Entry, "duplicate-name", id0, fmt.Sprintf("distinct values 0x%X (%s) and 0x%X (%s) both map to %q", w, byVal[w][0], v, id0, name), cse)
 				} else {
 					seen[name] = v
 				}
@@ -281,13 +305,13 @@ func checkNTStatusError(src *source) {
 			continue
 		}
 		if e1 == nil {
-			r.Violation(entry+":nil-error:"+id0, fmt.Sprintf("declared non-success status %s (0x%08X) has Error() == nil", id0, v), cse)
+			perConst(entry, "nil-error", id0, fmt.Sprintf("declared non-success status %s (0x%08X) has Error() == nil", id0, v), cse)
 			continue
 		}
 		txt := e1.Error()
 		cse["error"] = txt
 		if e2 == nil || e2.Error() != txt {
-			r.Violation(entry+":nondeterministic:"+id0, fmt.Sprintf("Error() of %s differs between two calls", id0), cse)
+			perConst(entry, "nondeterministic", id0, fmt.Sprintf("Error() of %s differs between two calls", id0), cse)
 		}
 		found := false
 		for _, m := range hexInText.FindAllStringSubmatch(txt, -1) {
@@ -297,7 +321,7 @@ func checkNTStatusError(src *source) {
 			}
 		}
 		if !found {
-			r.Violation(entry+":code-missing:"+id0, fmt.Sprintf("Error() of %s (0x%08X) does not mention the code in hex: %q", id0, v, txt), cse)
+			perConst(entry, "code-missing", id0, fmt.Sprintf("Error() of %s (0x%08X) does not mention the code in hex: %q", id0, v, txt), cse)
 		}
 		if i == len(vals)/2 {
 			r.Sample(map[string]any{"kind": "nt_status.Error", "identifier": id0, "value": fmt.Sprintf("0x%08X", v), "error": txt})
@@ -322,7 +346,7 @@ func checkNTStatusError(src *source) {
 			name = ids[0]
 		}
 		if rw.e == nil {
-			r.Violation("nt_status.NTStatusToGoErrorMap:nil-row:"+name, "row holds a nil error", map[string]any{"status": name})
+			perConst("nt_status.NTStatusToGoErrorMap", "nil-row", name, "row holds a nil error", map[string]any{"status": name})
 			continue
 		}
 		if o, dup := owner[rw.e]; dup {
@@ -330,7 +354,7 @@ func checkNTStatusError(src *source) {
 			if ids, ok := byVal[uint64(o)]; ok {
 				oname = ids[0]
 			}
-			r.Violation("nt_status.NTStatusToGoErrorMap:shared-error:"+name, fmt.Sprintf("statuses %s and %s map to the very same error object (%q)", oname, name, rw.e.Error()), map[string]any{"a": oname, "b": name})
+			perConst("nt_status.NTStatusToGoErrorMap", "shared-error", name, fmt.Sprintf("statuses %s and %s map to the very same error object (%q)", oname, name, rw.e.Error()), map[string]any{"a": oname, "b": name})
 		} else {
 			owner[rw.e] = rw.k
 		}
@@ -846,7 +870,14 @@ func checkPredicates(f flagFamily, nb map[int]*bitInfo, declared map[string]uint
 				}
 			}
 			cse["example_words"] = witness
-			r.Violation(entry+":sensitivity:"+strings.Join(lbls, "+"), fmt.Sprintf("%s depends on %d bits (mask 0x%X: %v); a predicate must depend on exactly its own bit", entry, bits.OnesCount64(sens), sens, lbls), cse)
+			lbl := strings.Join(lbls, "+")
+			switch {
+			case len(lbls) == 0:
+				lbl = "constant"
+			case len(lbls) > 3:
+				lbl = "many-bits"
+			}
+			r.Violation(entry+":sensitivity:"+lbl, fmt.Sprintf("%s depends on %d bits (mask 0x%X: %v); a predicate must depend on exactly its own bit", entry, bits.OnesCount64(sens), sens, lbls), cse)
 			continue
 		}
 		own := bits.TrailingZeros64(sens)
